@@ -8,7 +8,7 @@ from vt import detsched as ds, aosim, sysx
 ID = 'C05'
 ENGINE = 'detsched'
 TECHNIQUE = 'runtime monitoring under a deterministic cooperative scheduler: bounded-progress monitor (fair round-robin suffix, step budget) and exact deadlock detection at quiescence; a few small scenarios per run are enumerated systematically (every schedule within a delay bound, vt/sysx.py)'
-RULE = ('a started ActiveObject (spied or not, instrumented or not, live spy/trace output on in a share of the spied runs) and 1-4 poster threads x 1-6 unique-id events (fifo/lifo mixed, handlers that post further events; in 15% of the runs the pending-event queue has capacity 2-4 instead of 500 and the posters race at and beyond a FULL queue, in most of these runs with handlers that post further events - fifo and lifo - from the object\'s own thread while the queue is full), all real '
+RULE = ('a started ActiveObject (spied or not, instrumented or not, live spy/trace output on in a share of the spied runs) and 1-4 poster threads x 1-6 unique-id events (fifo/lifo mixed, handlers that post further events; in 15% of the runs the pending-event queue has capacity 2-4 instead of 500 (in part of them the class of the object declares a larger QUEUE_SIZE of its own) and the posters race at and beyond a FULL queue, in most of these runs with handlers that post further events - fifo and lifo - from the object\'s own thread while the queue is full), all real '
         'threads run one at a time by detsched with yield points at every line of miros/activeobject.py and of the queue functions of '
         'miros/hsm.py and around every Queue/Thread primitive; seeded random or PCT schedule prefix, then FAIR round-robin; every post must '
         'return and the system must reach quiescence (posters finished, consumer waiting, queue empty) within B = 40000 + 3000 x events '
@@ -17,7 +17,7 @@ RULE = ('a started ActiveObject (spied or not, instrumented or not, live spy/tra
         'runs with >= 2 posters or >= 1 handler post. ' + sysx.RULE_TEXT % (1, 1))
 CASES = {'quick': 800, 'thorough': 60000}
 BUDGET = {'quick': 150, 'thorough': 600}
-REQUIRE = {'runs': 300, 'runs_with_racing_posters': 100, 'runs_with_live_output_on': 40, 'runs_with_small_queue_capacity': 50, 'runs_with_handler_posts_at_a_full_queue': 25, 'directed_full_queue_schedules_run': 10, 'directed_schedules_followed_to_the_end': 20, 'systematic_schedules': 100, 'poster_between_token_put_and_append': 20, 'consumer_between_get_and_popleft': 20}
+REQUIRE = {'runs': 300, 'runs_with_racing_posters': 100, 'runs_with_live_output_on': 40, 'runs_with_small_queue_capacity': 50, 'runs_with_handler_posts_at_a_full_queue': 25, 'runs_with_a_class_level_queue_size_above_the_library_constant': 15, 'directed_full_queue_schedules_run': 10, 'directed_schedules_followed_to_the_end': 20, 'systematic_schedules': 100, 'poster_between_token_put_and_append': 20, 'consumer_between_get_and_popleft': 20}
 ASSUME = ['"eventually" is restated as bounded progress under a fair suffix; unbounded liveness is out of reach of a finite run',
           'switches happen at line starts of the focus files and around (never inside) calls of real primitives']
 ANNOUNCE_CASES = True
@@ -62,7 +62,13 @@ def run_scenario(ctx, rng, plans, fan, nev, spied, instrumented, check=None, ext
       saved_cap = _H.HsmWithQueues.QUEUE_SIZE
       _H.HsmWithQueues.QUEUE_SIZE = cap
       try:
-        ao = aosim.make_ao(hist, instrumented=instrumented)
+        base = None
+        if (extras or {}).get('subclass_capacity'):
+          # the object's class declares a QUEUE_SIZE of its own, larger than the library-wide constant in force
+          class Roomy(AO.ActiveObject):
+            QUEUE_SIZE = extras['subclass_capacity']
+          base = Roomy
+        ao = aosim.make_ao(hist, instrumented=instrumented, base=base)
       finally:
         _H.HsmWithQueues.QUEUE_SIZE = saved_cap
     else:
@@ -295,6 +301,9 @@ def scenario(ctx, n):
   if not getattr(ctx, 'small', False) and rng.random() < 0.15:
     # posters racing at a full queue: capacity 2-4, three events per planned post
     extras = dict(extras or {}, capacity=rng.choice([2, 3, 4]))
+    if rng.random() < 0.4:
+      extras['subclass_capacity'] = extras['capacity'] * rng.choice([2, 3])
+      ctx.count('runs_with_a_class_level_queue_size_above_the_library_constant')
     plans = [[(k, u * 10 + j) for j in range(3)] for pl in plans for (k, u) in pl][:4]
     fan, nev = {}, sum(len(p) for p in plans)
     if rng.random() < 0.6:
